@@ -119,7 +119,7 @@ def make_session(rng, names, n_calls, model_seq=None):
         for _ in range(6):
             calls.insert(rng.randrange(len(calls) + 1), ("set", "DecimalSeparator", rng.choice(["Auto", ".", ",", "Custom", ",", "."])))
         for _ in range(3):
-            calls.insert(rng.randrange(len(calls) + 1), ("set", "Language", rng.choice(["en", "sv", "de-ch", "es-mx", "Auto", "fi"])))
+            calls.insert(rng.randrange(len(calls) + 1), ("set", "Language", rng.choice(["en", "sv", "de-ch", "es-mx", "Auto", "fi", "es-MX", "de-LI", "EN-gb", "tr-CY"])))
     for k, name, value in calls:
         if k == "setmathml":
             ops.append({"op": "set_mathml", "mathml": rng.choice([EXPR, EXPR2, EXPR])})
